@@ -51,7 +51,7 @@ AST_BODIES = {
 }
 
 
-HOST_MODES = ['absent', 'num', 'none', 'no-names']
+HOST_MODES = ['absent', 'num', 'none', 'no-names', 'defaultdict']
 
 
 class HostFn:
@@ -170,6 +170,10 @@ def run_sequence(res, hist, with_host_len, mode):
     elif with_host_len == 'none':
         rnames['len'] = None
         mnames['len'] = None
+    elif with_host_len == 'defaultdict':
+        # the host mapping is a dict subclass with __missing__: lookups must test membership, never provoke the default
+        import collections
+        rnames = collections.defaultdict(lambda: D(77), rnames)
     no_names = with_host_len == 'no-names'
     progs = list(hist) if mode == 'separate' else ['; '.join(hist)]
     fn_ids0 = (id(api.FUNCTIONS), {k: id(v) for k, v in api.FUNCTIONS.items()})
